@@ -463,6 +463,51 @@ func highClock(res *core.Result, r *core.RNG) (*srv.World, error) {
 	return w, nil
 }
 
+// The rotation of the window does not depend on who is authorized: a server without any device (none yet,
+// or the only one banned) rotates when its clock is more than the trigger past the window start, so that
+// the first report of a device authorized later is inside the window.
+func emptyServerRotation(res *core.Result, r *core.RNG) (*srv.World, error) {
+	w, err := srv.NewWorld(r, "empty-rotation", 10)
+	if err != nil {
+		return nil, err
+	}
+	a, err := setupActors(w, r, 0)
+	if err != nil {
+		return w, err
+	}
+	tick := func(what string) {
+		before := w.S.VerifSnapshot().Offset
+		if !w.RotateTick(what) {
+			return
+		}
+		res.Count("rotate.no-devices")
+		should := int64(w.Now)-int64(before) > 3200
+		if got := w.S.VerifSnapshot().Offset; (got != before) != should {
+			res.Fail(fmt.Sprintf("rotation thread on a server with %s: clock %d, window start %d, rotated=%v although the rule (clock - start > 3200) says %v; a device authorized next reports for timeslot %d, which is outside the window [%d, %d)", what, w.Now, before, got != before, should, w.Now, got, got+4032),
+				"c20-rotation-depends-on-devices", map[string]interface{}{"history": w.Desc})
+		}
+	}
+	w.SetNow(3200)
+	tick("no authorized device")
+	w.SetNow(3201)
+	tick("no authorized device")
+	// one device, banned by a conflicting authorization: again nothing to report for
+	d := &device{ID: 77, K: srv.DetKey(r), Cap: 1000}
+	d.Auth = a.mkAuth(w, r, d.ID, d.K, d.Cap, a.GCA)
+	w.Authorize(d.Auth, "new")
+	c := a.mkAuth(w, r, d.ID, d.K, d.Cap+1, a.GCA)
+	w.Authorize(c, "conflict")
+	w.SetNow(2016 + 3201)
+	tick("only a banned device")
+	d2 := &device{ID: 78, K: srv.DetKey(r), Cap: 1000}
+	d2.Auth = a.mkAuth(w, r, d2.ID, d2.K, d2.Cap, a.GCA)
+	w.Authorize(d2.Auth, "new")
+	a.Devices = append(a.Devices, d2)
+	deliver(res, w, a.report(w, d2, w.Now, 5, d2.K), "after-empty-rotation", false)
+	w.SnapHop()
+	return w, nil
+}
+
 func randomHistory(res *core.Result, r *core.RNG, tier string) (*srv.World, error) {
 	// clock/offset configuration
 	k := r.Intn(3) // rotations at start-up
@@ -663,6 +708,14 @@ func reportsWorker(res *core.Result, r *core.RNG, tier, out string) error {
 			return err
 		}
 		finishWorld(res, w, &items)
+		w, err = emptyServerRotation(res, r)
+		if err != nil {
+			if w != nil {
+				w.Close()
+			}
+			return err
+		}
+		finishWorld(res, w, &items)
 	}
 	for i := 0; i < n; i++ {
 		w, err := randomHistory(res, r.Fork(), tier)
@@ -674,7 +727,7 @@ func reportsWorker(res *core.Result, r *core.RNG, tier, out string) error {
 		}
 		finishWorld(res, w, &items)
 	}
-	res.Required = []string{"rotate.clock-behind-window", "dgram.opposite-ends", "dgram.udp-short79-zero-tail", "dgram.udp-short79", "dgram.udp-long-valid-prefix", "dgram.now+432", "dgram.now+433", "dgram.now-432", "dgram.now-433", "dgram.power0", "dgram.power1", "dgram.power2",
+	res.Required = []string{"rotate.clock-behind-window", "rotate.no-devices", "dgram.opposite-ends", "dgram.udp-short79-zero-tail", "dgram.udp-short79", "dgram.udp-long-valid-prefix", "dgram.now+432", "dgram.now+433", "dgram.now-432", "dgram.now-433", "dgram.power0", "dgram.power1", "dgram.power2",
 		"dgram.short79", "dgram.long-valid-prefix", "dgram.signed-by-other-device", "dgram.signed-by-gca", "dgram.signed-by-server", "dgram.unknown-id",
 		"dgram.banned-device", "dgram.bitflip", "dgram.field-swap", "dgram.window-start-1", "dgram.window-start", "dgram.window-end-1", "dgram.window-end",
 		"dgram.lowclock-ts0", "dgram.highclock", "dgram.malleated-twin", "outcome.changed"}
